@@ -21,7 +21,7 @@ import numpy as np
 from common import rat, ser, DriverError
 from envlib import Adapter, Config, diff_json, tree_index
 
-DIRS = {1: (-1, 0), 2: (0, 1), 3: (1, 0), 4: (0, -1)}
+DIRS = {0: (0, 0), 1: (-1, 0), 2: (0, 1), 3: (1, 0), 4: (0, -1)}
 
 
 def _pos(p: Any) -> Dict[str, int]:
@@ -110,6 +110,64 @@ class A(Adapter):
 
     def ser_action(self, env, a):
         return [int(x) for x in np.asarray(a).reshape(-1)]
+
+    # ---- C10, operational solvability: the explicit solving episode that the theorem
+    # Props.C10.connector_walk_board_operationally_solvable builds from the generator's solved board (`connector.solve`) is played on the
+    # real environment (same generator, a time limit long enough for the whole plan): every action allowed by the mask, every agent gets its
+    # move, MID … MID LAST, everybody connected at the end, final grid and per-agent returns as in the Lean replay
+    def instance_extra(self, ctx, cfg, env, runner, rng, drv, seeds):
+        if not cfg.meta.get("board") or cfg.meta.get("gen") != "walk":
+            return
+        import jax
+        import jax.numpy as jnp
+        from fractions import Fraction
+        from jumanji.environments.routing.connector.generator import RandomWalkGenerator
+
+        n, k = cfg.meta["n"], cfg.meta["k"]
+        tl = 4 * n * n
+        env2 = _board_classes()[1](generator=RandomWalkGenerator(grid_size=n, num_agents=k), time_limit=tl)
+        reset2, step2 = jax.jit(env2.reset), jax.jit(env2.step)
+        cfg2 = dict(cfg.cfg, time_limit=tl)
+        for sd in seeds[: (6 if ctx.quick else 40)]:
+            s, ts = reset2(jax.random.PRNGKey(sd))
+            sj = self.ser_state(env2, s)
+            rep = drv.batch([dict(op="connector.solve", cfg=cfg2, state=sj)])[0]
+            ctx.evaluations += 1
+            info = {"env": self.name, "config": cfg.cid, "reset_seed": sd, "time_limit": tl, "state": sj}
+            if isinstance(rep, DriverError):
+                ctx.disagree(self.name, f"connector.solve rejects a generated instance: {rep}", info)
+                continue
+            if not rep["accepted"]:
+                ctx.count("connector.solve_rejected_by_certificate")    # reported through the walk_board_solvable certificate
+                continue
+            errs = []
+            if not rep["solution"]:
+                errs.append("the Lean replay of its own plan does not end in a complete solution")
+            ret = np.zeros(k)
+            acts = rep["actions"]
+            for t, a in enumerate(acts):
+                mask = np.asarray(ts.observation.action_mask)
+                if not all(mask[i][a[i]] for i in range(k)):
+                    errs.append(f"step {t}: action {a} is not allowed by the mask")
+                pos = np.asarray(s.agents.position)
+                s, ts = step2(s, jnp.asarray(a, jnp.int32))
+                if not (np.asarray(s.agents.position) == pos + np.array([DIRS[x] for x in a])).all():
+                    errs.append(f"step {t}: some agent did not get its move")
+                ret += np.asarray(ts.reward)
+                if int(ts.step_type) != (2 if t == len(acts) - 1 else 1):
+                    errs.append(f"step {t}: step type {int(ts.step_type)}")
+            if acts and not bool(np.asarray(s.agents.connected).all()):
+                errs.append("not every agent is connected at the end")
+            if acts and ser(s.grid) != rep["final"]["grid"]:
+                errs.append("final grid differs from the Lean replay")
+            lean_ret = [float(Fraction(r[0], r[1])) for r in rep["returns"]]
+            if acts and not np.allclose(ret, lean_ret, atol=1e-4):
+                errs.append(f"returns {ret.tolist()} vs Lean {lean_ret}")
+            ctx.nontrivial.add((self.name, "solve", sd))
+            ctx.count("connector.operationally_solved")
+            if errs:
+                ctx.fail(self.name, "instance:operationally_solvable", "the solving episode built from the route certificate fails on the implementation: " + "; ".join(errs[:3]),
+                         {**info, "actions": acts}, {"certificate": "operationally_solvable"})
 
     # ---- policies
     def _toward(self, s, i, legal_moves):
